@@ -403,6 +403,7 @@ func zvdConcInstance(tid string, cfg *zvdConcCfg, r *mrand.Rand, rp *zvdInfo, bt
 			st.count(o.R.Op + "/conc")
 		}
 		if b.Hang {
+			atomic.AddInt64(&st.wedged, 1)
 			fmt.Fprintf(os.Stderr, "verif: batch %s did not complete\n", b.Bid)
 		}
 	}
